@@ -44,8 +44,12 @@ def run(ctx):
     sessions_total = 0
     bad = 0
 
+    groups = []
+
     def replay(mode, p, traces, r1cs):
         nonlocal sessions_total, bad
+        if traces and (mode, str(p)) not in [(g["mode"], g["p"]) for g in groups]:
+            groups.append(dict(mode=mode, p=str(p), r1cs=(mode == "bn254" or p == 47), sessions=traces[:6] + traces[-6:]))
         # chunk sessions so a single harness process does not run too long
         res = ctx.run_vh(["c05"], dict(mode=mode, p=str(p), r1cs=r1cs, sessions=traces), tags=("g_poseidon",))
         for x in res:
@@ -101,6 +105,16 @@ def run(ctx):
     i2 = tla_set("<<%s,%s>>" % (s(a), s(b)) for a, b in [(1, 2), (2, 1), (0, 0), (R - 1, vals[-2])])
     r = ctx.tlc("Run", mc_cfg("bn254", 7), files={"Run.tla": run_module(i1, i2, 2)}, label="PoseidonMC bn254 sessions", timeout=1500)
     replay("bn254", R, r["traces"] if not ctx.quick else r["traces"][:12], r1cs=True)
+    # mixed-field sessions: the same behaviours, several fields interleaved in ONE process, each field taking its turn at being the first
+    # the process evaluates (process-wide caches keyed by arity, sync.Once initialisers)
+    for k in range(len(groups)):
+        order = groups[k:] + groups[:k]
+        res = ctx.run_vh(["c05-mixed"], dict(groups=order), tags=("g_poseidon",))
+        for x in res:
+            sessions_total += 1
+            if not x["ok"]:
+                ctx.violation("Poseidon gadget disagrees with Poseidon.tla: %s (%s)" % (x["id"], x.get("detail")), dict(kind="c05-mixed", cases=x.get("case")))
+    ctx.cov["mixed_field_orders"] = [[g["p"] for g in groups[k:] + groups[:k]] for k in range(len(groups))]
     ctx.traces_validated = sessions_total
     ctx.evaluations = sessions_total
     ctx.cov["rule"] = ("every behaviour of PoseidonMC (inputs chosen by TLC, outputs computed by the round machine) replayed into the Go gadgets "
@@ -110,7 +124,7 @@ def run(ctx):
 
 def replay(ctx, path):
     case = json.load(open(path))
-    res = ctx.run_vh(["c05"], case["cases"], tags=("g_poseidon",))
+    res = ctx.run_vh(["c05-mixed" if case.get("kind") == "c05-mixed" else "c05"], case["cases"], tags=("g_poseidon",))
     bad = [x for x in res if not x["ok"]]
     for x in bad:
         print("REPRODUCED:", json.dumps(x)[:600])
